@@ -57,7 +57,7 @@ TRUSTED = c10mod.TRUSTED + [
     "the harness and a field of the model's plan (FailKind) that no model function reads - the unchanged handler is a bare `except:`",
 ]
 RULE = (
-    "C10's table/row/op generators x connection mode (pysqlite legacy / AUTOCOMMIT / BEGIN recipe) x schema (main / ATTACHed database `aux`, with and without a table of the same name in main) x transactional_ddl option (default / True) x class of the injected exception (Exception / KeyboardInterrupt / SystemExit / BaseException); for each case the fault-free run gives the statement count n, then a fault is injected at "
+    "C10's table/row/op generators x connection mode (pysqlite legacy / AUTOCOMMIT / BEGIN recipe) x schema (main / ATTACHed database `aux`, with and without a table of the same name in main) x transactional_ddl option (default / True) x class of the injected exception (Exception / KeyboardInterrupt / SystemExit / BaseException) x warnings filter (default / error); for each case the fault-free run gives the statement count n, then a fault is injected at "
     "k = 0..n-1 (quick: 3 sampled k per case, thorough: every k; plus two-step scenarios: a first batch fails at the RENAME under durable statements so that all rows live under the temporary name only, then the migration is retried - reflected or with copy_from, with or without an empty table re-created under the original name, with or without a fault at its first statement) under each scope (none / outer / swallow); natural failures come from the "
     "fault-free runs.  Non-trivial = the run failed after at least one statement and the table had >= 1 row; distinct by "
     "(statement kinds up to the failure, outcome, scope, recreate, copy_from)"
@@ -68,7 +68,7 @@ ASSUMPTIONS = c10mod.ASSUMPTIONS + ["single fault: only one statement fails (the
 def input_of(case):
     return {"table": case["table"], "ops": case["ops"], "recreate": case["recreate"], "copy_from": case["copy_from"],
             "fault": case["fault"], "scope": case["scope"], "iso": case.get("iso", "default"), "tddl": case.get("tddl"),
-            "fkind": case.get("fkind", "exception"), "pr": case.get("pr"), "schema": case.get("schema"), "main_twin": case.get("main_twin"),
+            "fkind": case.get("fkind", "exception"), "pr": case.get("pr"), "wfilter": case.get("wfilter", "ignore"), "schema": case.get("schema"), "main_twin": case.get("main_twin"),
             **({"two_step": case["two_step"]} if case.get("two_step") else {})}
 
 
@@ -93,6 +93,11 @@ def judge(ctx, pending):
     for k, (case, r) in enumerate(pending):
         m, s1, s2 = ans[3 * k], ans[3 * k + 1], ans[3 * k + 2]
         d = bc.compare(case, r, m)
+        if str(r["outcome"]).startswith("warning:"):
+            # warnings filter = error turned a warning of the batch into an exception: outside the model (which has no warnings);
+            # kept visible in the histogram, and the run is still judged by check11 below
+            ctx.hist("warning_raised_as_error", r["outcome"][:100])
+            d = []
         if d:
             ctx.disagree("batch.run", input_of(case), bc.brief(r),
                          {"stmts": m.get("stmts"), "outcome": m.get("outcome"), "final": bc.canon_db(m["final"]) if "final" in m else None},
@@ -145,6 +150,7 @@ def one(ctx, case, pending):
     ctx.hist("outcome", bc.canon_outcome(r["outcome"]) or "ok")
     ctx.hist("scope", case["scope"])
     ctx.hist("connection", case.get("iso", "default"))
+    ctx.hist("warnings_filter", case.get("wfilter", "ignore"))
     ctx.hist("schema", "%s%s" % (case.get("schema") or "main", " + same name in main" if case.get("main_twin") else ""))
     ctx.hist("transactional_ddl", "default" if case.get("tddl") is None else str(case.get("tddl")))
     if case["fault"] is not None:
@@ -168,6 +174,8 @@ ISOS = ["default", "autocommit", "begin"]     # pysqlite legacy / isolation_leve
 TDDLS = [None, True]                          # transactional_ddl option of the MigrationContext
 # class of the injected exception: Exception / KeyboardInterrupt / SystemExit / a bare BaseException subclass
 FKINDS = ["exception", "exception", "keyboard", "systemexit", "base"]
+# process warning policy around the batch: default handling, or warnings raised as errors (python -W error / pytest filterwarnings=error)
+WFILTERS = ["ignore", "ignore", "error"]
 
 _T = {"name": "t", "cols": [
     {"name": "id", "ty": "INTEGER", "aff": "Integer", "nullable": False, "default": None, "dval": None, "pk": True},
@@ -244,13 +252,15 @@ def run(ctx, n_cases=None, rng_name="main"):
             for sc in SCOPES:
                 for iso in ISOS:
                     if (sc, iso) != (base["scope"], base["iso"]):
-                        one(ctx, bc.new_case(t, ops, recreate, copy_from, None, sc, iso, rng.choice(TDDLS), pr=pr, schema=schema, main_twin=twin), pending)
+                        one(ctx, bc.new_case(t, ops, recreate, copy_from, None, sc, iso, rng.choice(TDDLS), pr=pr, schema=schema, main_twin=twin,
+                                             wfilter=rng.choice(WFILTERS)), pending)
         if r0["outcome"] == "ok" and nst:
             ks = list(range(nst)) if ctx.thorough else sorted(rng.sample(range(nst), min(nst, 3)))
             for k in ks:
                 for sc in (SCOPES if ctx.thorough else [rng.choice(SCOPES)]):
                     for iso in (ISOS if ctx.thorough else [rng.choice(ISOS)]):
-                        one(ctx, bc.new_case(t, ops, recreate, copy_from, k, sc, iso, rng.choice(TDDLS), rng.choice(FKINDS), pr=pr, schema=schema, main_twin=twin), pending)
+                        one(ctx, bc.new_case(t, ops, recreate, copy_from, k, sc, iso, rng.choice(TDDLS), rng.choice(FKINDS), pr=pr, schema=schema,
+                                                 main_twin=twin, wfilter=rng.choice(WFILTERS)), pending)
         if r0["outcome"] == "ok" and "renameTmp" in r0["stmts"] and rng.random() < (0.5 if ctx.thorough else 0.4):
             two_step(ctx, base, r0["stmts"].index("renameTmp"), rng, pending)
         if len(pending) >= 200:
@@ -318,7 +328,7 @@ def replay(ctx, case):
     else:
         c = bc.new_case(inp["table"], inp["ops"], inp.get("recreate", "always"), inp.get("copy_from", False), inp.get("fault"),
                         inp.get("scope", "none"), inp.get("iso", "default"), inp.get("tddl"), inp.get("fkind", "exception"), inp.get("pr"),
-                        inp.get("schema"), inp.get("main_twin"))
+                        inp.get("schema"), inp.get("main_twin"), inp.get("wfilter", "ignore"))
         r = bc.run_impl(c)
     m = ctx.drv.ask1(bc.model_op(c, r))
     out = {"impl": bc.brief(r), "model": {"stmts": m.get("stmts"), "outcome": m.get("outcome")}, "differences": bc.compare(c, r, m)}
